@@ -301,12 +301,13 @@ def right_matrix_case(run, rng, l):
     return ok
 
 
-def angmom_shift_case(run, specs, d):
+def angmom_shift_case(run, specs, d, transform=None):
     b1 = make_basis(specs)
     b2 = make_basis([s.copy(center=list(np.array(s.center) + d)) for s in specs])
-    L1 = pf.FUNCS["angular_momentum"][0](b1, None)
-    L2 = pf.FUNCS["angular_momentum"][0](b2, None)
-    P = pf.FUNCS["momentum"][0](b1, None)
+    kw = {} if transform is None else {"transform": transform}
+    L1 = pf.FUNCS["angular_momentum"][0](b1, None, **kw)
+    L2 = pf.FUNCS["angular_momentum"][0](b2, None, **kw)
+    P = pf.FUNCS["momentum"][0](b1, None, **kw)
     exp = L1 + np.stack([d[1] * P[:, :, 2] - d[2] * P[:, :, 1], d[2] * P[:, :, 0] - d[0] * P[:, :, 2], d[0] * P[:, :, 1] - d[1] * P[:, :, 0]], axis=2)
     run.case(("angmom-shift",) + sig(specs))
     run.count("angmom origin law")
@@ -340,6 +341,10 @@ def check(run):
             tensor_case(run, specs, env, cayley(rng), np.array([core.snap(rng.uniform(-2, 2), 8) for _ in range(3)]), "orthogonal+translation")
         tensor_case(run, specs, env, rng.choice(sp), np.zeros(3), "signed-permutation")
         angmom_shift_case(run, specs, np.array([0.5, -1.25, 2.0]))
+        nb_ = sum(s_.size for s_ in specs)
+        Tc_ = random_transform(run.rng, nb_, rect=False) + 1j * random_transform(run.rng, nb_, rect=False)
+        angmom_shift_case(run, specs, np.array([-0.75, 0.5, 1.5]), transform=Tc_[: max(1, nb_ // 2)])
+        run.count("origin law with a complex transformation")
         setter_motion_case(run, rng, cayley(rng), np.array([core.snap(rng.uniform(-2, 2), 8) for _ in range(3)]))
     # shells without any diffuse primitive (smallest exponent 10-60), points close to their centres, the whole system moved 10-25 bohr
     # away from the coordinate origin
